@@ -297,7 +297,19 @@ pub fn initial_mods() -> Modifiers {
         lalt: false,
         ralt: false,
         rctrl2: false,
+        ..mods_base()
     }
+}
+/// Whatever else a future `Modifiers` may carry (the nine flags are all the
+/// statements speak about) comes from a new decoder's record, so that a field
+/// added to the struct neither breaks the build nor enters any comparison made
+/// through `mods_index`/`mods_eq9`.
+#[allow(clippy::needless_update)]
+pub fn mods_base() -> Modifiers {
+    pc_keyboard::Keyboard::new(pc_keyboard::ScancodeSet2::new(), pc_keyboard::layouts::Us104Key, pc_keyboard::HandleControl::Ignore).get_modifiers().clone()
+}
+pub fn mods_eq9(a: &Modifiers, b: &Modifiers) -> bool {
+    mods_index(a) == mods_index(b)
 }
 
 /// 9-bit index of a modifier record (for the reach bitset).
@@ -323,6 +335,7 @@ pub fn mods_from_index(i: usize) -> Modifiers {
         lalt: i & 64 != 0,
         ralt: i & 128 != 0,
         rctrl2: i & 256 != 0,
+        ..mods_base()
     }
 }
 pub fn mods_show(m: &Modifiers) -> String {
@@ -357,6 +370,8 @@ pub fn ref_mods_step(m: &mut Modifiers, k: KeyCode, s: KeyState) {
         KeyState::Down => Some(true),
         KeyState::Up => Some(false),
         KeyState::SingleShot => None,
+        #[allow(unreachable_patterns)]
+        _ => None,
     };
     if let Some(h) = held {
         match k {
